@@ -255,7 +255,7 @@ def expand_closures(ev, t, depth=0):
         new = []
         for a in args:
             if isinstance(a, Tm) and a.k == "closure":
-                body = ev.apply(a, [Tm("proj", (args[0] if args and isinstance(args[0], Tm) else Tm("opaque", ("x",)), "item"))], depth)
+                body = ev.apply(a, [Tm("proj", (args[0] if args and isinstance(args[0], Tm) else Tm("opaque", ("x",)), "item"))], 0)
                 new.append(expand_closures(ev, body, depth + 1))
             else:
                 new.append(a)
